@@ -369,6 +369,11 @@ def run_check(module, tier: str, seed: int, replay: str | None = None) -> int:
         return 2
     ctx.cleanup()
 
+    if os.environ.get("VERIF_DEBUG"):
+        for d in ctx.disagreements[: int(os.environ["VERIF_DEBUG"])]:
+            print("DISAGREE", json.dumps(d, default=str)[:1500])
+        for f in ctx.failures[: int(os.environ["VERIF_DEBUG"])]:
+            print("FAIL", json.dumps(f, default=str)[:600])
     findings = load_findings(prop_id)
     listed = {e["signature"]: e for e in findings if e.get("status") == "finding"}
     violations = 0
